@@ -4,8 +4,10 @@
 //! this crate can project a [`ClassFile`](crate::tree::class::ClassFile) into its own model. Nothing here
 //! changes behaviour: every function only hands out a reference to, or a copy of, what the tree already holds.
 //!
-//! Part (b) (`Masked*` wrappers around the tree-building visitors, for the partial-visitor checks) is not
-//! built yet; it goes at the end of this file.
+//! Part (b): module [`masked`], wrappers around any visitor (in practice the tree-building ones) that report a
+//! caller-chosen interest mask and decline caller-chosen classes and members, for the partial-visitor checks.
+//! The field and record component visitor traits live in crate-private modules, so these cannot be written
+//! outside of this crate.
 
 use java_string::JavaString;
 use crate::tree::annotation::Annotation;
@@ -108,4 +110,506 @@ pub fn record_component_attributes(record_component: &RecordComponent) -> &[Attr
 	&record_component.attributes
 }
 
-// Part (b): `Masked*` visitor wrappers (caller-chosen interest mask, caller-chosen declined members) go below.
+
+// ------------------------------------------------------------------------------------------------
+// Part (b): `Masked*` visitor wrappers.
+//
+// Each wrapper forwards every event to the visitor it wraps and changes exactly two things: the interests it
+// reports (taken from a caller-chosen `MaskSpec`) and which classes / members it declines (also from the
+// `MaskSpec`). Wrapping the tree-building visitors (`Vec<ClassFile>` and below) therefore yields the tree of
+// exactly those items the reader (or `ClassFile::accept`) chose to deliver under that mask.
+
+pub mod masked {
+	use std::collections::BTreeSet;
+	use std::ops::ControlFlow;
+	use std::rc::Rc;
+	use anyhow::Result;
+	use java_string::JavaString;
+	use crate::tree::class::{ClassAccess, ClassFile, ClassName, ClassSignature, EnclosingMethod, InnerClass, ObjClassName};
+	use crate::tree::field::{ConstantValue, FieldAccess, FieldDescriptor, FieldName, FieldSignature};
+	use crate::tree::method::{MethodAccess, MethodDescriptor, MethodName, MethodParameter, MethodSignature};
+	use crate::tree::method::code::{Exception, Instruction, Label, Lv};
+	use crate::tree::module::{Module, PackageName};
+	use crate::tree::record::RecordName;
+	use crate::tree::version::Version;
+	use crate::visitor::class::{ClassInterests, ClassVisitor};
+	use crate::visitor::field::{FieldInterests, FieldVisitor};
+	use crate::visitor::method::{MethodInterests, MethodVisitor};
+	use crate::visitor::method::code::{CodeInterests, CodeVisitor, StackMapData};
+	use crate::visitor::record::{RecordComponentInterests, RecordComponentVisitor};
+	use crate::visitor::MultiClassVisitor;
+
+	/// What a member is, for [`MaskSpec::declined`].
+	#[derive(Debug, Clone, Copy, PartialEq, Eq, PartialOrd, Ord)]
+	pub enum Item {
+		/// a whole class (member index is ignored, use 0)
+		Class,
+		Field,
+		Method,
+		RecordComponent,
+		/// the `Code` attribute of the method with that index
+		Code,
+	}
+
+	/// `CodeInterests` is not `Clone`, so the mask keeps its own copy of the flags.
+	#[derive(Debug, Clone, Copy, Default, PartialEq)]
+	pub struct CodeMask {
+		pub stack_map_table: bool,
+		pub line_number_table: bool,
+		pub local_variable_table: bool,
+		pub local_variable_type_table: bool,
+		pub runtime_visible_type_annotations: bool,
+		pub runtime_invisible_type_annotations: bool,
+		pub unknown_attributes: bool,
+	}
+
+	impl CodeMask {
+		pub fn all() -> CodeMask {
+			CodeMask {
+				stack_map_table: true,
+				line_number_table: true,
+				local_variable_table: true,
+				local_variable_type_table: true,
+				runtime_visible_type_annotations: true,
+				runtime_invisible_type_annotations: true,
+				unknown_attributes: true,
+			}
+		}
+		fn interests(&self) -> CodeInterests {
+			CodeInterests {
+				stack_map_table: self.stack_map_table,
+				line_number_table: self.line_number_table,
+				local_variable_table: self.local_variable_table,
+				local_variable_type_table: self.local_variable_type_table,
+				runtime_visible_type_annotations: self.runtime_visible_type_annotations,
+				runtime_invisible_type_annotations: self.runtime_invisible_type_annotations,
+				unknown_attributes: self.unknown_attributes,
+			}
+		}
+	}
+
+	/// The caller's choices: one interest mask per level, and the set of declined items as
+	/// `(index of the class in the stream, kind, index of the member within its class, in file order)`.
+	#[derive(Debug, Clone, Default)]
+	pub struct MaskSpec {
+		pub class: ClassInterests,
+		pub field: FieldInterests,
+		pub method: MethodInterests,
+		pub code: CodeMask,
+		pub record_component: RecordComponentInterests,
+		pub declined: BTreeSet<(usize, Item, usize)>,
+	}
+
+	impl MaskSpec {
+		/// Everything is interesting, nothing is declined.
+		pub fn all() -> MaskSpec {
+			MaskSpec {
+				class: ClassInterests::all(),
+				field: FieldInterests::all(),
+				method: MethodInterests::all(),
+				code: CodeMask::all(),
+				record_component: RecordComponentInterests::all(),
+				declined: BTreeSet::new(),
+			}
+		}
+		fn is_declined(&self, class: usize, item: Item, index: usize) -> bool {
+			self.declined.contains(&(class, item, index))
+		}
+	}
+
+	/// Reads all classes of the stream position the reader is at into trees, under the given mask.
+	/// One call reads one class file, like [`crate::read_class_multi`].
+	pub fn read_masked(reader: &mut (impl std::io::Read + std::io::Seek), visitor: MaskedMulti<Vec<ClassFile>>) -> Result<MaskedMulti<Vec<ClassFile>>> {
+		crate::read_class_multi(reader, visitor)
+	}
+
+	pub struct MaskedMulti<M> {
+		pub inner: M,
+		spec: Rc<MaskSpec>,
+		/// index of the next class visited
+		class_index: usize,
+	}
+
+	impl<M> MaskedMulti<M> {
+		pub fn new(inner: M, spec: MaskSpec) -> MaskedMulti<M> {
+			MaskedMulti { inner, spec: Rc::new(spec), class_index: 0 }
+		}
+		pub fn into_inner(self) -> M {
+			self.inner
+		}
+		/// How many classes were offered to this visitor so far (accepted or declined).
+		pub fn classes_seen(&self) -> usize {
+			self.class_index
+		}
+	}
+
+	#[derive(Clone)]
+	pub struct Ctx {
+		spec: Rc<MaskSpec>,
+		class_index: usize,
+		fields: usize,
+		methods: usize,
+		record_components: usize,
+	}
+
+	impl<M: MultiClassVisitor> MultiClassVisitor for MaskedMulti<M> {
+		type ClassVisitor = MaskedClass<M::ClassVisitor>;
+		type ClassResidual = (M::ClassResidual, Rc<MaskSpec>, usize);
+
+		fn visit_class(self, version: Version, access: ClassAccess, name: ObjClassName, super_class: Option<ObjClassName>, interfaces: Vec<ObjClassName>)
+				-> Result<ControlFlow<Self, (Self::ClassResidual, Self::ClassVisitor)>> {
+			let MaskedMulti { inner, spec, class_index } = self;
+			if spec.is_declined(class_index, Item::Class, 0) {
+				return Ok(ControlFlow::Break(MaskedMulti { inner, spec, class_index: class_index + 1 }));
+			}
+			Ok(match inner.visit_class(version, access, name, super_class, interfaces)? {
+				ControlFlow::Break(inner) => ControlFlow::Break(MaskedMulti { inner, spec, class_index: class_index + 1 }),
+				ControlFlow::Continue((residual, class_visitor)) => {
+					let ctx = Ctx { spec: spec.clone(), class_index, fields: 0, methods: 0, record_components: 0 };
+					ControlFlow::Continue(((residual, spec, class_index + 1), MaskedClass { inner: class_visitor, ctx }))
+				},
+			})
+		}
+
+		fn finish_class((residual, spec, class_index): Self::ClassResidual, class_visitor: Self::ClassVisitor) -> Result<Self> {
+			Ok(MaskedMulti { inner: M::finish_class(residual, class_visitor.inner)?, spec, class_index })
+		}
+	}
+
+	pub struct MaskedClass<C> {
+		inner: C,
+		ctx: Ctx,
+	}
+
+	impl<C: ClassVisitor> ClassVisitor for MaskedClass<C> {
+		type AnnotationsVisitor = C::AnnotationsVisitor;
+		type AnnotationsResidual = (C::AnnotationsResidual, Ctx);
+		type TypeAnnotationsVisitor = C::TypeAnnotationsVisitor;
+		type TypeAnnotationsResidual = (C::TypeAnnotationsResidual, Ctx);
+		type RecordComponentVisitor = MaskedRecordComponent<C::RecordComponentVisitor>;
+		type RecordComponentResidual = (C::RecordComponentResidual, Ctx);
+		type FieldVisitor = MaskedField<C::FieldVisitor>;
+		type FieldResidual = (C::FieldResidual, Ctx);
+		type MethodVisitor = MaskedMethod<C::MethodVisitor>;
+		type MethodResidual = (C::MethodResidual, Ctx);
+		type UnknownAttribute = C::UnknownAttribute;
+
+		fn interests(&self) -> ClassInterests {
+			self.ctx.spec.class
+		}
+
+		fn visit_deprecated_and_synthetic_attribute(&mut self, deprecated: bool, synthetic: bool) -> Result<()> {
+			self.inner.visit_deprecated_and_synthetic_attribute(deprecated, synthetic)
+		}
+		fn visit_inner_classes(&mut self, inner_classes: Vec<InnerClass>) -> Result<()> {
+			self.inner.visit_inner_classes(inner_classes)
+		}
+		fn visit_enclosing_method(&mut self, enclosing_method: EnclosingMethod) -> Result<()> {
+			self.inner.visit_enclosing_method(enclosing_method)
+		}
+		fn visit_signature(&mut self, signature: ClassSignature) -> Result<()> {
+			self.inner.visit_signature(signature)
+		}
+		fn visit_source_file(&mut self, source_file: JavaString) -> Result<()> {
+			self.inner.visit_source_file(source_file)
+		}
+		fn visit_source_debug_extension(&mut self, source_debug_extension: JavaString) -> Result<()> {
+			self.inner.visit_source_debug_extension(source_debug_extension)
+		}
+
+		fn visit_annotations(self, visible: bool) -> Result<(Self::AnnotationsResidual, Self::AnnotationsVisitor)> {
+			let (residual, visitor) = self.inner.visit_annotations(visible)?;
+			Ok(((residual, self.ctx), visitor))
+		}
+		fn finish_annotations((residual, ctx): Self::AnnotationsResidual, annotations_visitor: Self::AnnotationsVisitor) -> Result<Self> {
+			Ok(MaskedClass { inner: C::finish_annotations(residual, annotations_visitor)?, ctx })
+		}
+		fn visit_type_annotations(self, visible: bool) -> Result<(Self::TypeAnnotationsResidual, Self::TypeAnnotationsVisitor)> {
+			let (residual, visitor) = self.inner.visit_type_annotations(visible)?;
+			Ok(((residual, self.ctx), visitor))
+		}
+		fn finish_type_annotations((residual, ctx): Self::TypeAnnotationsResidual, type_annotations_visitor: Self::TypeAnnotationsVisitor) -> Result<Self> {
+			Ok(MaskedClass { inner: C::finish_type_annotations(residual, type_annotations_visitor)?, ctx })
+		}
+
+		fn visit_module(&mut self, module: Module) -> Result<()> {
+			self.inner.visit_module(module)
+		}
+		fn visit_module_packages(&mut self, module_packages: Vec<PackageName>) -> Result<()> {
+			self.inner.visit_module_packages(module_packages)
+		}
+		fn visit_module_main_class(&mut self, module_main_class: ClassName) -> Result<()> {
+			self.inner.visit_module_main_class(module_main_class)
+		}
+		fn visit_nest_host_class(&mut self, nest_host_class: ClassName) -> Result<()> {
+			self.inner.visit_nest_host_class(nest_host_class)
+		}
+		fn visit_nest_members(&mut self, nest_members: Vec<ClassName>) -> Result<()> {
+			self.inner.visit_nest_members(nest_members)
+		}
+		fn visit_permitted_subclasses(&mut self, permitted_subclasses: Vec<ClassName>) -> Result<()> {
+			self.inner.visit_permitted_subclasses(permitted_subclasses)
+		}
+
+		fn visit_record_component(self, name: RecordName, descriptor: FieldDescriptor)
+				-> Result<ControlFlow<Self, (Self::RecordComponentResidual, Self::RecordComponentVisitor)>> {
+			let MaskedClass { inner, mut ctx } = self;
+			let index = ctx.record_components;
+			ctx.record_components += 1;
+			if ctx.spec.is_declined(ctx.class_index, Item::RecordComponent, index) {
+				return Ok(ControlFlow::Break(MaskedClass { inner, ctx }));
+			}
+			Ok(match inner.visit_record_component(name, descriptor)? {
+				ControlFlow::Break(inner) => ControlFlow::Break(MaskedClass { inner, ctx }),
+				ControlFlow::Continue((residual, visitor)) => {
+					let spec = ctx.spec.clone();
+					ControlFlow::Continue(((residual, ctx), MaskedRecordComponent { inner: visitor, spec }))
+				},
+			})
+		}
+		fn finish_record_component((residual, ctx): Self::RecordComponentResidual, record_component_visitor: Self::RecordComponentVisitor) -> Result<Self> {
+			Ok(MaskedClass { inner: C::finish_record_component(residual, record_component_visitor.inner)?, ctx })
+		}
+
+		fn visit_unknown_attribute(&mut self, unknown_attribute: Self::UnknownAttribute) -> Result<()> {
+			self.inner.visit_unknown_attribute(unknown_attribute)
+		}
+
+		fn visit_field(self, access: FieldAccess, name: FieldName, descriptor: FieldDescriptor)
+				-> Result<ControlFlow<Self, (Self::FieldResidual, Self::FieldVisitor)>> {
+			let MaskedClass { inner, mut ctx } = self;
+			let index = ctx.fields;
+			ctx.fields += 1;
+			if ctx.spec.is_declined(ctx.class_index, Item::Field, index) {
+				return Ok(ControlFlow::Break(MaskedClass { inner, ctx }));
+			}
+			Ok(match inner.visit_field(access, name, descriptor)? {
+				ControlFlow::Break(inner) => ControlFlow::Break(MaskedClass { inner, ctx }),
+				ControlFlow::Continue((residual, visitor)) => {
+					let spec = ctx.spec.clone();
+					ControlFlow::Continue(((residual, ctx), MaskedField { inner: visitor, spec }))
+				},
+			})
+		}
+		fn finish_field((residual, ctx): Self::FieldResidual, field_visitor: Self::FieldVisitor) -> Result<Self> {
+			Ok(MaskedClass { inner: C::finish_field(residual, field_visitor.inner)?, ctx })
+		}
+
+		fn visit_method(self, access: MethodAccess, name: MethodName, descriptor: MethodDescriptor)
+				-> Result<ControlFlow<Self, (Self::MethodResidual, Self::MethodVisitor)>> {
+			let MaskedClass { inner, mut ctx } = self;
+			let index = ctx.methods;
+			ctx.methods += 1;
+			if ctx.spec.is_declined(ctx.class_index, Item::Method, index) {
+				return Ok(ControlFlow::Break(MaskedClass { inner, ctx }));
+			}
+			Ok(match inner.visit_method(access, name, descriptor)? {
+				ControlFlow::Break(inner) => ControlFlow::Break(MaskedClass { inner, ctx }),
+				ControlFlow::Continue((residual, visitor)) => {
+					let spec = ctx.spec.clone();
+					let decline_code = spec.is_declined(ctx.class_index, Item::Code, index);
+					ControlFlow::Continue(((residual, ctx), MaskedMethod { inner: visitor, spec, decline_code }))
+				},
+			})
+		}
+		fn finish_method((residual, ctx): Self::MethodResidual, method_visitor: Self::MethodVisitor) -> Result<Self> {
+			Ok(MaskedClass { inner: C::finish_method(residual, method_visitor.inner)?, ctx })
+		}
+	}
+
+	pub struct MaskedField<F> {
+		inner: F,
+		spec: Rc<MaskSpec>,
+	}
+
+	impl<F: FieldVisitor> FieldVisitor for MaskedField<F> {
+		type AnnotationsVisitor = F::AnnotationsVisitor;
+		type AnnotationsResidual = (F::AnnotationsResidual, Rc<MaskSpec>);
+		type TypeAnnotationsVisitor = F::TypeAnnotationsVisitor;
+		type TypeAnnotationsResidual = (F::TypeAnnotationsResidual, Rc<MaskSpec>);
+		type UnknownAttribute = F::UnknownAttribute;
+
+		fn interests(&self) -> FieldInterests {
+			self.spec.field
+		}
+		fn visit_deprecated_and_synthetic_attribute(&mut self, deprecated: bool, synthetic: bool) -> Result<()> {
+			self.inner.visit_deprecated_and_synthetic_attribute(deprecated, synthetic)
+		}
+		fn visit_constant_value(&mut self, constant_value: ConstantValue) -> Result<()> {
+			self.inner.visit_constant_value(constant_value)
+		}
+		fn visit_signature(&mut self, signature: FieldSignature) -> Result<()> {
+			self.inner.visit_signature(signature)
+		}
+		fn visit_annotations(self, visible: bool) -> Result<(Self::AnnotationsResidual, Self::AnnotationsVisitor)> {
+			let (residual, visitor) = self.inner.visit_annotations(visible)?;
+			Ok(((residual, self.spec), visitor))
+		}
+		fn finish_annotations((residual, spec): Self::AnnotationsResidual, annotations_visitor: Self::AnnotationsVisitor) -> Result<Self> {
+			Ok(MaskedField { inner: F::finish_annotations(residual, annotations_visitor)?, spec })
+		}
+		fn visit_type_annotations(self, visible: bool) -> Result<(Self::TypeAnnotationsResidual, Self::TypeAnnotationsVisitor)> {
+			let (residual, visitor) = self.inner.visit_type_annotations(visible)?;
+			Ok(((residual, self.spec), visitor))
+		}
+		fn finish_type_annotations((residual, spec): Self::TypeAnnotationsResidual, type_annotations_visitor: Self::TypeAnnotationsVisitor) -> Result<Self> {
+			Ok(MaskedField { inner: F::finish_type_annotations(residual, type_annotations_visitor)?, spec })
+		}
+		fn visit_unknown_attribute(&mut self, unknown_attribute: Self::UnknownAttribute) -> Result<()> {
+			self.inner.visit_unknown_attribute(unknown_attribute)
+		}
+	}
+
+	pub struct MaskedRecordComponent<R> {
+		inner: R,
+		spec: Rc<MaskSpec>,
+	}
+
+	impl<R: RecordComponentVisitor> RecordComponentVisitor for MaskedRecordComponent<R> {
+		type AnnotationsVisitor = R::AnnotationsVisitor;
+		type AnnotationsResidual = (R::AnnotationsResidual, Rc<MaskSpec>);
+		type TypeAnnotationsVisitor = R::TypeAnnotationsVisitor;
+		type TypeAnnotationsResidual = (R::TypeAnnotationsResidual, Rc<MaskSpec>);
+		type UnknownAttribute = R::UnknownAttribute;
+
+		fn interests(&self) -> RecordComponentInterests {
+			self.spec.record_component
+		}
+		fn visit_signature(&mut self, signature: FieldSignature) -> Result<()> {
+			self.inner.visit_signature(signature)
+		}
+		fn visit_annotations(self, visible: bool) -> Result<(Self::AnnotationsResidual, Self::AnnotationsVisitor)> {
+			let (residual, visitor) = self.inner.visit_annotations(visible)?;
+			Ok(((residual, self.spec), visitor))
+		}
+		fn finish_annotations((residual, spec): Self::AnnotationsResidual, annotations_visitor: Self::AnnotationsVisitor) -> Result<Self> {
+			Ok(MaskedRecordComponent { inner: R::finish_annotations(residual, annotations_visitor)?, spec })
+		}
+		fn visit_type_annotations(self, visible: bool) -> Result<(Self::TypeAnnotationsResidual, Self::TypeAnnotationsVisitor)> {
+			let (residual, visitor) = self.inner.visit_type_annotations(visible)?;
+			Ok(((residual, self.spec), visitor))
+		}
+		fn finish_type_annotations((residual, spec): Self::TypeAnnotationsResidual, type_annotations_visitor: Self::TypeAnnotationsVisitor) -> Result<Self> {
+			Ok(MaskedRecordComponent { inner: R::finish_type_annotations(residual, type_annotations_visitor)?, spec })
+		}
+		fn visit_unknown_attribute(&mut self, unknown_attribute: Self::UnknownAttribute) -> Result<()> {
+			self.inner.visit_unknown_attribute(unknown_attribute)
+		}
+	}
+
+	pub struct MaskedMethod<M> {
+		inner: M,
+		spec: Rc<MaskSpec>,
+		decline_code: bool,
+	}
+
+	impl<M: MethodVisitor> MethodVisitor for MaskedMethod<M> {
+		type AnnotationsVisitor = M::AnnotationsVisitor;
+		type AnnotationsResidual = (M::AnnotationsResidual, Rc<MaskSpec>, bool);
+		type TypeAnnotationsVisitor = M::TypeAnnotationsVisitor;
+		type TypeAnnotationsResidual = (M::TypeAnnotationsResidual, Rc<MaskSpec>, bool);
+		type AnnotationDefaultVisitor = M::AnnotationDefaultVisitor;
+		type AnnotationDefaultResidual = (M::AnnotationDefaultResidual, Rc<MaskSpec>, bool);
+		type CodeVisitor = MaskedCode<M::CodeVisitor>;
+		type UnknownAttribute = M::UnknownAttribute;
+
+		fn interests(&self) -> MethodInterests {
+			self.spec.method
+		}
+		fn visit_deprecated_and_synthetic_attribute(&mut self, deprecated: bool, synthetic: bool) -> Result<()> {
+			self.inner.visit_deprecated_and_synthetic_attribute(deprecated, synthetic)
+		}
+		fn visit_exceptions(&mut self, exceptions: Vec<ClassName>) -> Result<()> {
+			self.inner.visit_exceptions(exceptions)
+		}
+		fn visit_signature(&mut self, signature: MethodSignature) -> Result<()> {
+			self.inner.visit_signature(signature)
+		}
+		fn visit_annotations(self, visible: bool) -> Result<(Self::AnnotationsResidual, Self::AnnotationsVisitor)> {
+			let (residual, visitor) = self.inner.visit_annotations(visible)?;
+			Ok(((residual, self.spec, self.decline_code), visitor))
+		}
+		fn finish_annotations((residual, spec, decline_code): Self::AnnotationsResidual, annotations_visitor: Self::AnnotationsVisitor) -> Result<Self> {
+			Ok(MaskedMethod { inner: M::finish_annotations(residual, annotations_visitor)?, spec, decline_code })
+		}
+		fn visit_type_annotations(self, visible: bool) -> Result<(Self::TypeAnnotationsResidual, Self::TypeAnnotationsVisitor)> {
+			let (residual, visitor) = self.inner.visit_type_annotations(visible)?;
+			Ok(((residual, self.spec, self.decline_code), visitor))
+		}
+		fn finish_type_annotations((residual, spec, decline_code): Self::TypeAnnotationsResidual, type_annotations_visitor: Self::TypeAnnotationsVisitor) -> Result<Self> {
+			Ok(MaskedMethod { inner: M::finish_type_annotations(residual, type_annotations_visitor)?, spec, decline_code })
+		}
+		fn visit_annotation_default(self) -> Result<(Self::AnnotationDefaultResidual, Self::AnnotationDefaultVisitor)> {
+			let (residual, visitor) = self.inner.visit_annotation_default()?;
+			Ok(((residual, self.spec, self.decline_code), visitor))
+		}
+		fn finish_annotation_default((residual, spec, decline_code): Self::AnnotationDefaultResidual, element_value_visitor: Self::AnnotationDefaultVisitor) -> Result<Self> {
+			Ok(MaskedMethod { inner: M::finish_annotation_default(residual, element_value_visitor)?, spec, decline_code })
+		}
+		fn visit_parameters(&mut self, method_parameters: Vec<MethodParameter>) -> Result<()> {
+			self.inner.visit_parameters(method_parameters)
+		}
+		fn visit_annotable_parameter_count(&mut self) {
+			self.inner.visit_annotable_parameter_count()
+		}
+		fn visit_parameter_annotation(&mut self) {
+			self.inner.visit_parameter_annotation()
+		}
+		fn visit_unknown_attribute(&mut self, unknown_attribute: Self::UnknownAttribute) -> Result<()> {
+			self.inner.visit_unknown_attribute(unknown_attribute)
+		}
+		fn visit_code(&mut self) -> Result<Option<Self::CodeVisitor>> {
+			if self.decline_code {
+				return Ok(None);
+			}
+			let spec = self.spec.clone();
+			Ok(self.inner.visit_code()?.map(|inner| MaskedCode { inner, spec }))
+		}
+		fn finish_code(&mut self, code_visitor: Self::CodeVisitor) -> Result<()> {
+			self.inner.finish_code(code_visitor.inner)
+		}
+	}
+
+	pub struct MaskedCode<C> {
+		inner: C,
+		spec: Rc<MaskSpec>,
+	}
+
+	impl<C: CodeVisitor> CodeVisitor for MaskedCode<C> {
+		type TypeAnnotationsVisitor = C::TypeAnnotationsVisitor;
+		type TypeAnnotationsResidual = (C::TypeAnnotationsResidual, Rc<MaskSpec>);
+		type UnknownAttribute = C::UnknownAttribute;
+
+		fn interests(&self) -> CodeInterests {
+			self.spec.code.interests()
+		}
+		fn visit_max_stack_and_max_locals(&mut self, max_stack: u16, max_locals: u16) -> Result<()> {
+			self.inner.visit_max_stack_and_max_locals(max_stack, max_locals)
+		}
+		fn visit_exception_table(&mut self, exception_table: Vec<Exception>) -> Result<()> {
+			self.inner.visit_exception_table(exception_table)
+		}
+		fn visit_instruction(&mut self, label: Option<Label>, frame: Option<StackMapData>, instruction: Instruction) -> Result<()> {
+			self.inner.visit_instruction(label, frame, instruction)
+		}
+		fn visit_last_label(&mut self, last_label: Label) -> Result<()> {
+			self.inner.visit_last_label(last_label)
+		}
+		fn visit_line_numbers(&mut self, line_number_table: Vec<(Label, u16)>) -> Result<()> {
+			self.inner.visit_line_numbers(line_number_table)
+		}
+		fn visit_local_variables(&mut self, local_variables: Vec<Lv>) -> Result<()> {
+			self.inner.visit_local_variables(local_variables)
+		}
+		fn visit_type_annotations(self, visible: bool) -> Result<(Self::TypeAnnotationsResidual, Self::TypeAnnotationsVisitor)> {
+			let (residual, visitor) = self.inner.visit_type_annotations(visible)?;
+			Ok(((residual, self.spec), visitor))
+		}
+		fn finish_type_annotations((residual, spec): Self::TypeAnnotationsResidual, type_annotations_visitor: Self::TypeAnnotationsVisitor) -> Result<Self> {
+			Ok(MaskedCode { inner: C::finish_type_annotations(residual, type_annotations_visitor)?, spec })
+		}
+		fn visit_unknown_attribute(&mut self, unknown_attribute: Self::UnknownAttribute) -> Result<()> {
+			self.inner.visit_unknown_attribute(unknown_attribute)
+		}
+	}
+}
